@@ -172,6 +172,7 @@ func (reqmnt *BondgoRequirements) Usage_Monitor(useditem chan UsageNotify, usage
 	//debug := reqmnt.Config.Debug
 UB:
 	for {
+		VerifYield("um-recv")
 		notif := <-useditem
 
 		targettype := notif.TargetType
